@@ -358,7 +358,7 @@ func checkC04(c *km.Ctx) {
 				cl, ok := km.Unwrap(v).(*ssa.Call)
 				return ok && km.CalleeFull(cl.Common()) == RS+"idpGetIssuer"
 			}
-			return (fieldLoadOf(resolve(f.X), cons.typ, "Issuer") && isIss(f.Y)) || (fieldLoadOf(resolve(f.Y), cons.typ, "Issuer") && isIss(f.X))
+			return (fieldLoadOf(resolve(f.X), cons.typ, "Issuer") && isIss(resolve(f.Y))) || (fieldLoadOf(resolve(f.Y), cons.typ, "Issuer") && isIss(resolve(f.X)))
 		}}
 		audLen := km.Prim{Name: "len(aud) >= 1", Rel: func(f km.Fact, resolve func(ssa.Value) ssa.Value) bool {
 			cl, ok := f.X.(*ssa.Call)
@@ -391,7 +391,7 @@ func checkC04(c *km.Ctx) {
 				cl, ok := km.Unwrap(v).(*ssa.Call)
 				return ok && km.CalleeFull(cl.Common()) == RS+"idpGetIssuer"
 			}
-			return (isAud0(f.X) && isIss(f.Y)) || (isAud0(f.Y) && isIss(f.X))
+			return (isAud0(f.X) && isIss(resolve(f.Y))) || (isAud0(f.Y) && isIss(resolve(f.X)))
 		}}
 		nbf := km.Prim{Name: "nbf <= now", Rel: func(f km.Fact, resolve func(ssa.Value) ssa.Value) bool {
 			switch f.Op {
